@@ -1,19 +1,7 @@
-#check @List.Forall₂
-#check @List.Perm.append
-#check @List.perm_middle
-#check @List.Perm.filterMap
-#check @List.Sublist.filterMap
-#check @List.modify
-#check @List.Perm.flatMap_left
-#check @List.Perm.flatten
-#check @List.perm_append_comm
-#check @List.filter_append_perm
-#check @List.Perm.foldl_eq
-#check @List.getElem?_modify
-#check @List.Perm.recOn
-#check @List.flatMap_append
-#check @List.Perm.flatMap_right
-#check @List.IsPrefix
-#check @List.IsSuffix
-#check @List.Perm.count_eq
-#check @List.perm_iff_count
+import Martian.Props.C13.Conc
+open Martian Martian.Verify Martian.Props.C13
+#eval cxReport.map (fun b => String.mk (b.map (fun c => Char.ofNat c.toNat)))
+#eval (Cells.report ((cxGroup.cells .req).run cxSigma)).map (fun b => String.mk (b.map (fun c => Char.ofNat c.toNat)))
+#print axioms nonatomic_query_not_linearisable_counterexample
+#print axioms phased_history_linearisable
+#print axioms query_is_failures_since_reset_concurrent
